@@ -165,6 +165,9 @@ var GetCmd = &cobra.Command{
 		}()
 		jm := protojson.MarshalOptions{}
 		for row := range rows {
+			if row.Data == nil { // not found
+				continue
+			}
 			if dataOnly {
 				fmt.Printf("%s\n", jm.Format(row.Data))
 			} else {
